@@ -212,6 +212,36 @@ func (in *inst) shallowScan(s ast.Stmt) (f shallow) {
 	return
 }
 
+// simLock rewrites the statement `x.Lock()` / `x.RLock()` in place into
+// verifsim.MutexLock(&x, site) / MutexRLock; reports whether it did.
+func (in *inst) simLock(s ast.Stmt) bool {
+	es, ok := s.(*ast.ExprStmt)
+	if !ok {
+		return false
+	}
+	c, ok := es.X.(*ast.CallExpr)
+	if !ok || len(c.Args) != 0 {
+		return false
+	}
+	m, tn, ok := in.syncMethod(c)
+	if !ok || (tn != "Mutex" && tn != "RWMutex") || (m != "Lock" && m != "RLock") {
+		return false
+	}
+	recv := c.Fun.(*ast.SelectorExpr).X
+	var arg ast.Expr = recv
+	if t := in.info.TypeOf(recv); t != nil {
+		if _, isPtr := t.Underlying().(*types.Pointer); !isPtr {
+			arg = &ast.UnaryExpr{Op: token.AND, X: recv}
+		}
+	}
+	fn := "MutexLock"
+	if m == "RLock" {
+		fn = "MutexRLock"
+	}
+	es.X = call(fn, arg, strLit(in.site(s.Pos())))
+	return true
+}
+
 func (in *inst) rewriteGo(g *ast.GoStmt) []ast.Stmt {
 	in.idN++
 	idName := fmt.Sprintf("__verifID%d", in.idN)
@@ -284,7 +314,7 @@ func (in *inst) rewriteList(list []ast.Stmt, inGo bool) []ast.Stmt {
 		if d, ok := core.(*ast.DeferStmt); ok {
 			if m, _, isSync := in.syncMethod(d.Call); isSync && (m == "Unlock" || m == "RUnlock") {
 				d.Call = &ast.CallExpr{Fun: &ast.FuncLit{Type: &ast.FuncType{Params: &ast.FieldList{}}, Body: &ast.BlockStmt{List: []ast.Stmt{
-					&ast.ExprStmt{X: call("LockExit")}, &ast.ExprStmt{X: d.Call}}}}}
+					&ast.ExprStmt{X: d.Call}, &ast.ExprStmt{X: call("MutexUnlocked")}}}}}
 				in.stats["defer-unlock"]++
 				in.changed = true
 				out = append(out, s)
@@ -292,12 +322,18 @@ func (in *inst) rewriteList(list []ast.Stmt, inGo bool) []ast.Stmt {
 			}
 		}
 		switch {
-		case f.lock:
-			out = append(out, in.yield("Yield", s.Pos()), s, &ast.ExprStmt{X: call("LockEnter")})
+		case f.lock && in.simLock(core):
+			// x.Lock() became verifsim.MutexLock(&x, site): a TryLock loop over yield points,
+			// so that tasks may park inside critical sections without stalling quiescence detection
+			out = append(out, s)
 			in.stats["lock"]++
 			in.changed = true
+		case f.lock:
+			out = append(out, in.yield("Yield", s.Pos()), s, &ast.ExprStmt{X: call("LockEnter")})
+			in.stats["lock-unsimulated"]++
+			in.changed = true
 		case f.unlock:
-			out = append(out, &ast.ExprStmt{X: call("LockExit")}, s, in.yield("Yield", s.Pos()))
+			out = append(out, s, &ast.ExprStmt{X: call("MutexUnlocked")}, in.yield("Yield", s.Pos()))
 			in.changed = true
 		case f.onceDo:
 			out = append(out, in.yield("Yield", s.Pos()), &ast.ExprStmt{X: call("LockEnter")}, s, &ast.ExprStmt{X: call("LockExit")})
